@@ -269,6 +269,14 @@ class MolQueryReader(object):
             self.ReadAtomConstraintChain(tree[2][1:], molquery, idx)
 
     def ReadBondTypeBondedAtom(self, idx, idx_connected, bondtype, molquery):
+        if idx == idx_connected:
+            raise RINGReaderError('Atom ' + molquery.atom_names[idx]
+                                  + ' cannot be bonded to itself')
+        if molquery.mol.GetBondBetweenAtoms(idx, idx_connected):
+            raise RINGReaderError('Bond between '
+                                  + molquery.atom_names[idx] + ' and '
+                                  + molquery.atom_names[idx_connected]
+                                  + ' is already declared')
         if bondtype == 'single':
             molquery.mol.AddBond(idx, idx_connected, Chem.BondType.SINGLE)
         elif bondtype == 'double':
